@@ -49,6 +49,10 @@ def main():
         rc, txt = sh([PY, demo], cwd=wt, env=env, timeout=300)
         out["demo_clean_exit"] = rc
         rc, txt = sh(["git", "apply", patch], cwd=wt)
+        if rc:
+            # the tree has moved on since the change was written (later fix: commits): merge it
+            rc, txt = sh(["git", "apply", "--3way", patch], cwd=wt)
+            out["applied_with_3way_merge"] = rc == 0
         out["patch_applies"] = rc == 0
         if rc:
             out["patch_error"] = txt[-400:]
